@@ -682,6 +682,10 @@ static void iauth_xquery_config_service(const char *name, const char *type)
     /* Look up the type of the service. */
     for (ii = 0; ii < ARRAY_LENGTH(type_names); ++ii) {
         if (!strcasecmp(type, type_names[ii])) {
+            /* What clients were asked under another protocol says
+             * nothing about this one: have them asked again. */
+            if (srv->type != (enum iauth_xquery_type)ii)
+                srv->epoch = ++iauth_xquery_epoch;
             srv->type = (enum iauth_xquery_type)ii;
             break;
         }
